@@ -874,7 +874,11 @@ def _summarise_nonempty(ctx, fr, path, src, body, lo, hi, peel):
 
             def sub(t, subs=subs):
                 return simp(z3.substitute(t, *subs))
+            unchanged_sets = {L.key[1] for L in locs if L.key[0] == "env" and L.g.kind == "set"
+                              and isinstance(p.env.get(L.key[1]), Val) and z3.eq(simp(p.env[L.key[1]].t), simp(L.g.val.t))}
             for n, v in p.env.items():
+                if n in unchanged_sets:
+                    continue    # a set the exit iteration did not touch: its state is the closed form at the exit index
                 if isinstance(v, Val) and not (isinstance(s.env.get(n), Val) and z3.eq(simp(s.env[n].t), simp(v.t))):
                     if any(L.key == ("env", n) for L in locs) or n not in path.env or not z3.eq(simp(path.env[n].t), simp(v.t)) \
                             if isinstance(path.env.get(n), Val) else True:
